@@ -60,3 +60,70 @@ package authentication
 //@ effect[C28:key-of-the-named-credential] every parameters.algorithm.newVerifier($ak, $secret, $sc) where $ak == accessKeyId && $secret == expectedCredentials.SecretAccessKey && $sc == scope
 //@ effect[C28:host-header-is-signed] every verifier.verify(_, _) where slices.Contains(signedHeadersArray, "host")
 //@ effect[C28:unsigned-sensitive-header-rejects] every mustBeSignedHeader($k) -> ($m) if $m && !slices.Contains(signedHeadersArray, $k) forbids after loop_continues()
+
+// ---------------------------------------------------------------------------------------------------------------
+// C30. aws-chunked uploads: the decoder is set up with the framing the request declared, every chunk signature is
+// verified against the chain (previous signature, timestamp, scope, hash of the chunk's bytes), and the decoder
+// reports the end of the payload only after the final chunk signature, the trailer signature and the trailer
+// checksum - whichever the declared mode requires - were verified.
+
+// The decoder gets the framing flags of the declared mode, the request's timestamp and scope, and the seed signature.
+//@ func checkAuthentication
+//@ mode effects
+//@ havoc newVerifier
+//@ effect[C30:decoder-framing-matches-the-declared-mode] every newAwsChunkReadCloser(_, _, $ts, $sc, $prev, $v, $trail, $trailSig, $skip, $name)
+//@     where $trail == specHasTrailer(contentSHA256) && $trailSig == specSignedTrailer(contentSHA256) && $skip == specUnsignedChunks(contentSHA256) &&
+//@         $ts == parameters.timestamp && $sc == scope.value && $prev == parameters.signature
+//@ effect[C30:decoder-only-after-the-request-signature-verified] every newAwsChunkReadCloser(__) needs before verifier.verify(_, _) -> ($ok) where $ok
+
+// One link of the signature chain: the chunk signature is verified over the string-to-sign of this chunk (previous
+// signature, timestamp, scope, hash of the chunk's bytes); only then does the chain advance to this signature.
+//@ func (*awsChunkReadCloser).validateSignature
+//@ mode effects
+//@ assigns r.previousSignature
+//@ ensures[C30:link-verified] err == nil ==> called(r.verifier.verify) && result_of(r.verifier.verify, 0)
+//@ ensures[C30:mismatch-reported] called(r.verifier.verify) && !result_of(r.verifier.verify, 0) ==> err == ErrChunkSignatureMismatch
+//@ effect[C30:link-over-this-chunk] every r.verifier.verify($s, $sig)
+//@     needs before generateStringToSignForChunk($alg, $ts, $sc, $prev, $h) -> ($sts)
+//@     where $s == $sts && $ts == old(r.timestamp) && $sc == old(r.scope) && $prev == old(r.previousSignature)
+//@ ensures[C30:chain-advances-to-this-signature] err == nil ==> r.previousSignature == result_of(r.verifier.normalizeStreamingSignature, 0)
+//@ ensures[C30:chain-kept-on-mismatch] err != nil ==> r.previousSignature == old(r.previousSignature)
+
+// Read reports io.EOF only once the decoder is finished (any other end of the underlying body is an unexpected EOF);
+// readChunked marks the decoder finished only at the terminating zero-length chunk and only after what the declared
+// mode requires was verified: the final chunk signature (signed chunks), the trailer signature (signed trailer) and
+// the trailer checksum (trailer modes). A failed chunk signature returns no bytes; payload bytes are fed to the chunk
+// hash (signed chunks) and to the trailer checksum (trailer modes).
+//@ func (*awsChunkReadCloser).Read
+//@ mode effects
+//@ ensures[C30:eof-only-when-finished] err == io.EOF ==> r.finished
+
+//@ func (*awsChunkReadCloser).readChunked
+//@ mode effects
+//@ assigns r.finished r.chunkBytesRemaining r.chunkSignature r.previousSignature
+//@ ensures[C30:finished-only-at-the-terminating-chunk] r.finished && !old(r.finished) ==> err == io.EOF && r.chunkBytesRemaining == 0
+//@ ensures[C30:finished-only-after-the-final-chunk-signature] r.finished && !old(r.finished) && !old(r.skipChunkValidation) ==>
+//@     called(r.validateSignature) && result_of(r.validateSignature, 0) == nil
+//@ ensures[C30:finished-only-after-the-trailer-checksum] r.finished && !old(r.finished) && old(r.hasTrailingHeader) ==>
+//@     called(r.validateTrailerChecksum) && result_of(r.validateTrailerChecksum, 0) == nil
+//@ ensures[C30:finished-only-after-the-trailer-signature] r.finished && !old(r.finished) && old(r.hasTrailingHeader) && old(r.hasTrailingHeaderWithSignature) ==>
+//@     called(r.verifier.verify) && result_of(r.verifier.verify, 0)
+//@ ensures[C30:failed-chunk-signature-returns-nothing] called(r.validateSignature) && result_of(r.validateSignature, 0) != nil ==> err != nil && n == 0
+//@ effect[C30:trailer-signature-over-the-trailer-line] every r.verifier.verify($s, $sig)
+//@     needs before generateStringToSignForTrailerChunk($alg, $ts, $sc, $prev, $line) -> ($sts) needs before r.readTrailerSection() -> ($cl, $tsig)
+//@     where $s == $sts && $line == $cl
+//@ effect[C30:trailer-checksum-over-the-trailer-line] every r.validateTrailerChecksum($line) needs before r.readTrailerSection() -> ($cl, $tsig) where $line == $cl
+//@ effect[C30:payload-bytes-enter-the-chunk-hash] every io.ReadFull(_, _) if !old(r.skipChunkValidation) needs after r.chunkHasher.Write(_)
+//@ effect[C30:payload-bytes-enter-the-trailer-checksum] every io.ReadFull(_, _) if old(r.trailerHasher) != nil needs after r.trailerHasher.Write(_)
+
+// Frame contracts: reading the trailer lines and checking the trailer checksum do not modify the decoder's settings
+// (readChunked relies on this between its mode tests).
+//@ func (*awsChunkReadCloser).readTrailerSection
+//@ property C30
+//@ mode effects
+//@ frame
+
+//@ func (*awsChunkReadCloser).validateTrailerChecksum
+//@ property C30
+//@ mode effects
+//@ frame
